@@ -18,10 +18,11 @@ type State struct {
 	mdom  Term          // map domains: obj -> slot -> Bool
 	mlen  Term          // map lengths: obj -> Int
 	ghost map[string]Term
+	fc    *FnCtx // for naming intermediate heap terms
 }
 
 func (s *State) clone() *State {
-	n := &State{heap: map[Sort]Term{}, next: s.next, mdom: s.mdom, mlen: s.mlen, ghost: map[string]Term{}}
+	n := &State{heap: map[Sort]Term{}, next: s.next, mdom: s.mdom, mlen: s.mlen, ghost: map[string]Term{}, fc: s.fc}
 	for k, v := range s.heap {
 		n.heap[k] = v
 	}
@@ -107,6 +108,9 @@ func (s *State) cellWrite(sortOf Sort, obj, off, v Term) {
 	h, ok := s.heap[sortOf]
 	if !ok {
 		panic(fmt.Sprintf("no heap for sort %s", sortOf))
+	}
+	if len(h.S) > 40 && s.fc != nil && !s.fc.pureMode {
+		h = s.fc.define(s.fc.freshName("H_"+sortTag(sortOf)), h)
 	}
 	s.heap[sortOf] = Store(h, obj, Store(Select(h, obj), off, v))
 }
@@ -302,8 +306,6 @@ func zeroOfSort(s Sort) (Term, bool) {
 		return IntLit(0), true
 	case s.IsBV():
 		return BVLit64(0, s.BVWidth()), true
-	case s == SStr:
-		return Term{"strlit_empty", SStr}, true
 	case s.IsArr():
 		z, ok := zeroOfSort(s.ElemSort())
 		if !ok {
